@@ -108,11 +108,6 @@ theorem filter_ne_of_not_mem (ks : List Nat) (k : Nat) (h : k ∉ ks) : ks.filte
 
 /-! ## well-formed programs: every key is consumed once, new keys are fresh -/
 
-/-- the live keys after a step -/
-def keysStep (ks : List Nat) : Step → List Nat
-  | .pre i _ => i :: ks.filter (· != i)
-  | .pair p l r _ => p :: ((ks.filter (· != l)).filter (· != r)).filter (· != p)
-
 /-- the key a pairwise step writes is not live (it is a *new* intermediate: in the real loop the
     key is the parent node, a strictly larger leaf set than any live node below it) -/
 def Fresh (ks : List Nat) : Step → Prop
@@ -122,6 +117,21 @@ def Fresh (ks : List Nat) : Step → Prop
 def WF : List Step → List Nat → Prop
   | [], _ => True
   | st :: rest, ks => Fresh ks st ∧ WF rest (keysStep ks st)
+
+theorem wf_of_wfB : ∀ (steps : List Step) (ks : List Nat), wfB steps ks = true → WF steps ks := by
+  intro steps
+  induction steps with
+  | nil => intro _ _; trivial
+  | cons st rest ih =>
+    intro ks h
+    simp only [wfB, Bool.and_eq_true] at h
+    refine ⟨?_, ih _ h.2⟩
+    cases st with
+    | pre _ _ => trivial
+    | pair p l r out =>
+      have := h.1
+      simp only [Bool.not_eq_true', List.contains_eq_mem, decide_eq_false_iff_not] at this
+      exact this
 
 /-- the invariant -/
 structure Inv (c : Nat → α) (P : Temps α) (S : SState α) : Prop where
